@@ -2,7 +2,7 @@ import MesonModel.Life.Lemmas
 /-
 What one entry of a re-read option file does to the store (`OptionStore.update_project_options`,
 options.py:1390-1417), for an arbitrary store: new option, changed choices (keep / reset), unchanged domain
-(no-op, whatever the new default is), changed type, and the removal pass.
+(no-op, whatever the new default is), changed type (replaced, new default), and the removal pass.
 -/
 namespace MesonModel.Life
 open MesonModel.Options MesonModel.Options.M
@@ -20,25 +20,37 @@ theorem updateOne_new (sub : Str) (key : Key) (nobj : Obj) (s : Store)
   cases nobj
   simp_all [updateOne, addProjectOption, bind, M.bind, M.assert, M.pure, M.get, M.modify, ahas, ensureKey_host s key hx hm, alloc]
 
-theorem updateOne_choices_keep (sub : Str) (key : Key) (nobj old : Obj) (s : Store) (oid : Nat) (v : Val)
+/-- an existing option whose type or choices / range changed is replaced (`replaceObj`) -/
+theorem updateOne_replace (sub : Str) (key : Key) (nobj old : Obj) (s : Store) (oid : Nat)
     (hx : s.isCross = false) (hm : key.machine = .host) (hs : key.sub = some sub)
     (hk : alookup key s.options = some oid) (ho : s.heap[oid]? = some old)
-    (hc : old.kind.sameClass nobj.kind = true) (hd : old.kind.choicesDiffer nobj.kind = true)
-    (hv : validate nobj.kind old.value = .ok v) :
-    updateOne sub (key, nobj) s =
-      (.ok (), { s with heap := s.heap ++ [{ nobj with value := v }], options := ainsert key s.heap.length s.options }) := by
-  simp [updateOne, bind, M.bind, M.assert, M.pure, M.get, M.modify, ahas, hk, hm, hs, ensureKey_host s key hx hm, getObj, ho, hc, hd,
-    alloc, catchMeson, objSetValue, M.ofExcept, hv, Store.updObj]
+    (hd : (!(old.kind.sameClass nobj.kind) || old.kind.choicesDiffer nobj.kind) = true) :
+    updateOne sub (key, nobj) s = replaceObj key nobj old oid (!(old.kind.sameClass nobj.kind)) s := by
+  simp [updateOne, bind, M.bind, M.assert, M.pure, M.get, ahas, hk, hm, hs, ensureKey_host s key hx hm, getObj, ho, hd]
 
-theorem updateOne_choices_reset (sub : Str) (key : Key) (nobj old : Obj) (s : Store) (oid : Nat)
-    (hx : s.isCross = false) (hm : key.machine = .host) (hs : key.sub = some sub)
-    (hk : alookup key s.options = some oid) (ho : s.heap[oid]? = some old)
-    (hc : old.kind.sameClass nobj.kind = true) (hd : old.kind.choicesDiffer nobj.kind = true)
-    (hv : validate nobj.kind old.value = .error .meson) :
-    updateOne sub (key, nobj) s =
-      (.ok (), { s with heap := s.heap ++ [nobj], options := ainsert key s.heap.length s.options }) := by
-  simp [updateOne, bind, M.bind, M.assert, M.pure, M.get, M.modify, ahas, hk, hm, hs, ensureKey_host s key hx hm, getObj, ho, hc, hd,
-    alloc, catchMeson, objSetValue, M.ofExcept, hv, M.fail]
+theorem linkParent_plain (s : Store) (k : Key) (o : Obj) (hy : o.yielding = false) (hp : o.parent = none) :
+    linkParent s k o = none := by
+  simp [linkParent, hy, hp]
+
+/-- replacement of a non-inheriting option: it succeeds, and the option then reads `w` — the new default after a
+type change, else the old value when the new choices accept it, else the new default -/
+theorem replaceObj_plain (key : Key) (nobj old : Obj) (oid : Nat) (retyped : Bool) (s : Store)
+    (hx : s.isCross = false) (hm : key.machine = .host) (ha : alookup key s.augments = none)
+    (hy : nobj.yielding = false) (hp : nobj.parent = none) (w : Val)
+    (hw : (retyped = true ∧ w = nobj.value) ∨
+          (retyped = false ∧ validate nobj.kind old.value = .ok w) ∨
+          (retyped = false ∧ validate nobj.kind old.value = .error .meson ∧ w = nobj.value)) :
+    (replaceObj key nobj old oid retyped s).1 = .ok () ∧
+    getValueFor (replaceObj key nobj old oid retyped s).2 key = .ok w := by
+  have he : ∀ (s' : Store), s'.isCross = false → ensureKey s' key = key := fun s' h => ensureKey_host s' key h hm
+  have hl := linkParent_plain s key nobj hy hp
+  rcases hw with ⟨hr, rfl⟩ | ⟨hr, hv⟩ | ⟨hr, hv, rfl⟩ <;> subst hr
+  · simp [replaceObj, bind, M.bind, M.get, alloc, M.modify, repointChildren, hl, M.pure,
+      getValueFor, getIdAndValue, resolveId, he, hx, alookup_ainsert, ha, Except.map]
+  · simp [replaceObj, bind, M.bind, M.get, alloc, M.modify, repointChildren, hl, M.pure, catchMeson, objSetValue, getObj,
+      M.ofExcept, hv, Store.updObj, getValueFor, getIdAndValue, resolveId, he, hx, alookup_ainsert, ha, Except.map]
+  · simp [replaceObj, bind, M.bind, M.get, alloc, M.modify, repointChildren, hl, M.pure, catchMeson, objSetValue, getObj,
+      M.ofExcept, hv, M.fail, getValueFor, getIdAndValue, resolveId, he, hx, alookup_ainsert, ha, Except.map]
 
 theorem updateOne_same (sub : Str) (key : Key) (nobj old : Obj) (s : Store) (oid : Nat)
     (hx : s.isCross = false) (hm : key.machine = .host) (hs : key.sub = some sub)
@@ -47,19 +59,6 @@ theorem updateOne_same (sub : Str) (key : Key) (nobj old : Obj) (s : Store) (oid
     updateOne sub (key, nobj) s = (.ok (), s) := by
   simp [updateOne, bind, M.bind, M.assert, M.pure, M.get, ahas, hk, hm, hs, ensureKey_host s key hx hm, getObj, ho, hc, hd]
 
-
-/-- a changed type does not replace the object: the *new default* is assigned to the *old* object -/
-theorem updateOne_type_change (sub : Str) (key : Key) (nobj old : Obj) (s : Store) (oid : Nat)
-    (hx : s.isCross = false) (hm : key.machine = .host) (hs : key.sub = some sub)
-    (hk : alookup key s.options = some oid) (ho : s.heap[oid]? = some old)
-    (hc : old.kind.sameClass nobj.kind = false) :
-    updateOne sub (key, nobj) s =
-      ((setOption key nobj.value false s).1.map (fun _ => ()), (setOption key nobj.value false s).2) := by
-  cases h : setOption key nobj.value false s with
-  | mk r s' =>
-    cases r <;>
-      simp [updateOne, bind, M.bind, M.assert, M.pure, M.get, ahas, hk, hm, hs, ensureKey_host s key hx hm, getObj, ho, hc, h,
-        Except.map]
 
 /-- reading an option that was just put under `key` as a fresh, non-inheriting object -/
 theorem getValueFor_fresh (s : Store) (key : Key) (o : Obj) (po : List Key)
@@ -91,5 +90,72 @@ theorem update_removes (sub : Str) (objs : List (Key × Obj)) (s s' : Store)
       · simp only [Bool.not_eq_true] at hc
         simp only [List.contains_eq_mem, List.mem_filter, decide_eq_false_iff_not] at hc ⊢
         simp [hc]
+
+set_option linter.unusedSimpArgs false
+
+theorem linkParent_yield (s : Store) (k : Key) (o p : Obj) (pid : Nat) (hy : o.yielding = true) (hs : k.subTruthy = true)
+    (hk : alookup k.asRoot s.options = some pid) (hp : s.heap[pid]? = some p) (hc : p.kind.sameClass o.kind = true) :
+    linkParent s k o = some pid := by
+  simp [linkParent, hy, hs, hk, hp, hc]
+
+/-- replacement of an inheriting option (changed choices): it is linked to the registered top-level object again and
+reads that object's value -/
+theorem replaceObj_inheriting (key : Key) (nobj old p : Obj) (oid pid : Nat) (s : Store)
+    (hx : s.isCross = false) (hm : key.machine = .host) (ha : alookup key s.augments = none)
+    (hy : nobj.yielding = true) (hs : key.subTruthy = true)
+    (hk : alookup key.asRoot s.options = some pid) (hp : s.heap[pid]? = some p) (hpp : p.parent = none)
+    (hc : p.kind.sameClass nobj.kind = true) (hpo : pid ≠ oid)
+    (hold : old.yielding = true) (hv : ∃ e, validate nobj.kind old.value = .ok e ∨ validate nobj.kind old.value = .error .meson) :
+    (replaceObj key nobj old oid false s).1 = .ok () ∧
+    getValueFor (replaceObj key nobj old oid false s).2 key = .ok p.value := by
+  have he : ∀ (s' : Store), s'.isCross = false → ensureKey s' key = key := fun s' h => ensureKey_host s' key h hm
+  have hl := linkParent_yield s key nobj p pid hy hs hk hp hc
+  have hlt : pid < s.heap.length := (List.getElem?_eq_some_iff.mp hp).1
+  have hne : pid ≠ s.heap.length := by omega
+  have hp2 : ∀ x : Obj, (s.heap ++ [x])[pid]? = some p := by
+    intro x; rw [List.getElem?_append_left hlt]; exact hp
+  have hp3 : ∀ (f : Obj → Obj) (x : Obj), (s.heap.map f ++ [x])[pid]? = some (f p) := by
+    intro f x; rw [List.getElem?_append_left (by simpa using hlt)]; simp [hp]
+  obtain ⟨e, hv | hv⟩ := hv
+  · simp [replaceObj, bind, M.bind, M.get, alloc, M.modify, repointChildren, hl, M.pure, catchMeson, objSetValue, getObj,
+      M.ofExcept, hv, Store.updObj, getValueFor, getIdAndValue, resolveId, he, hx, alookup_ainsert, ha, Except.map, hold, hp2, hp3, hpp, hpo,
+      List.getElem?_set, hne, hlt]
+  · simp [replaceObj, bind, M.bind, M.get, alloc, M.modify, repointChildren, hl, M.pure, catchMeson, objSetValue, getObj,
+      M.ofExcept, hv, M.fail, getValueFor, getIdAndValue, resolveId, he, hx, alookup_ainsert, ha, Except.map, hold, hp2, hp3, hpp, hpo, hlt]
+
+/-- replacement of a *parent* object: a child that yielded to the old object reads the replacement -/
+theorem replaceObj_repoints_child (key ck : Key) (nobj old c : Obj) (oid cid : Nat) (s : Store)
+    (hx : s.isCross = false) (hm : ck.machine = .host) (ha : alookup ck s.augments = none) (hkk : key ≠ ck)
+    (hy : nobj.yielding = false) (hp : nobj.parent = none)
+    (hck : alookup ck s.options = some cid) (hc : s.heap[cid]? = some c)
+    (hcy : c.yielding = true) (hcp : c.parent = some oid) (hcc : nobj.kind.sameClass c.kind = true) (w : Val)
+    (hw : validate nobj.kind old.value = .ok w ∨ (validate nobj.kind old.value = .error .meson ∧ w = nobj.value)) :
+    getValueFor (replaceObj key nobj old oid false s).2 ck = .ok w := by
+  have he : ∀ (s' : Store), s'.isCross = false → ensureKey s' ck = ck := fun s' h => ensureKey_host s' ck h hm
+  have hl := linkParent_plain s key nobj hy hp
+  have hlt : cid < s.heap.length := (List.getElem?_eq_some_iff.mp hc).1
+  have hne : cid ≠ s.heap.length := by omega
+  have hne' : s.heap.length ≠ cid := by omega
+  have hc3 : ∀ (f : Obj → Obj) (x : Obj), (s.heap.map f ++ [x])[cid]? = some (f c) := by
+    intro f x; rw [List.getElem?_append_left (by simpa using hlt)]; simp [hc]
+  rcases hw with hv | ⟨hv, rfl⟩
+  · simp [replaceObj, bind, M.bind, M.get, alloc, M.modify, repointChildren, hl, M.pure, catchMeson, objSetValue, getObj,
+      M.ofExcept, hv, Store.updObj, getValueFor, getIdAndValue, resolveId, he, hx, alookup_ainsert, ha, Except.map, hkk, hck,
+      hc3, hcy, hcp, hcc, hp, List.getElem?_set, hne, hne', hlt]
+  · simp [replaceObj, bind, M.bind, M.get, alloc, M.modify, repointChildren, hl, M.pure, catchMeson, objSetValue, getObj,
+      M.ofExcept, hv, M.fail, getValueFor, getIdAndValue, resolveId, he, hx, alookup_ainsert, ha, Except.map, hkk, hck,
+      hc3, hcy, hcp, hcc, hp, hne, hne', hlt]
+
+/-- `-Usub:opt` on a project option that has a parent: it yields again and reads the parent's value, whatever that is -/
+theorem configureOne_unset_yielding (s : Store) (k : Key) (id pid : Nat) (o p : Obj)
+    (hx : s.isCross = false) (hm : k.machine = .host)
+    (ha : alookup k s.augments = none) (hk : alookup k s.options = some id) (ho : s.heap[id]? = some o)
+    (hp : o.parent = some pid) (hpo : s.heap[pid]? = some p) (hne : pid ≠ id) :
+    (configureOne (k, none) s).1 = .ok (!o.yielding) ∧ getValueFor (configureOne (k, none) s).2 k = .ok p.value := by
+  have he : ∀ (s' : Store), s'.isCross = false → ensureKey s' k = k := fun s' h => ensureKey_host s' k h hm
+  obtain ⟨hlt, ho'⟩ := List.getElem?_eq_some_iff.mp ho
+  have hne' : id ≠ pid := Ne.symm hne
+  simp [configureOne, bind, M.bind, M.get, M.modify, M.pure, ahas, ha, hk, he, hx, getObj, ho, hp, objSetYielding, Store.updObj,
+    getValueFor, getIdAndValue, resolveId, Except.map, List.getElem?_set, hne, hne', hpo, hlt, ho']
 
 end MesonModel.Life
